@@ -34,13 +34,13 @@ CHECKS = {
    "Centre distance recomputed independently (for image ROIs to within 0.75 px: half-pixel centres); IoU of image ROIs computed by the reference, other probe scores read from the implementation; calls with a pair at the radius boundary are skipped; coverage limit as C01."),
  "C04": ("secondary", "4 (C04)", TECH % "independent interpolated-area routine on the observed ranking of every frame score and scene score",
    "For every Map of every frame result and every scene query: ranking by descending confidence (stable), TP iff label-compatible and score beats the label's threshold, AP/APH = interpolated PR area (1e-9), mAP/mAPH = mean of defined, [0,1], APH <= AP; perfect frames give AP 1. The simulation adds pooled multi-frame rankings with duplicates and re-ordered deliveries.",
-   "Scores of boxes in space read from the implementation, scores of image ROIs and the heading agreement of flat boxes recomputed; rankings with confidence ties that matter and decisions within 1e-6 of a threshold are skipped; rankings are not enumerated exhaustively."),
+   "Scores of boxes in space read from the implementation, scores of image ROIs and the heading agreement (direction of the x-axis on the ground plane) recomputed; modes, per-label thresholds and label order of every score checked against the plan; rankings with confidence ties that matter and decisions within 1e-6 of a threshold are skipped; rankings are not enumerated exhaustively."),
  "C08": ("secondary", "4 (C08)", TECH % "cross-invariants between thresholds of one step and between a step and its looser-threshold twin delivery",
    "Within every frame and scene score: for every matching mode with >= 2 thresholds AP/APH/mAP are monotone from stricter to looser. For sampled deliveries a twin evaluator receives the same delivery with the pass/fail threshold loosened x1.5 and x4: TP set grows, FN count does not (ordinary ground truth only).",
    "Twin comparisons are skipped when the twin does not see the same results (history dependence is C13's business)."),
  "C10": ("secondary", "4 (C10)", TECH % "reference predicate with world-truth ego pose on every filter call of the manager / frame result, plus probe calls",
    "Every filter_objects / filter_object_results call made during every step is recorded and judged: output = order-preserving sub-list selected by the reference predicate (ego-relative position recomputed from the object's state and the world's ego pose), a result removed when either side fails, input untouched; the real function is called again for idempotence and with each bound widened (superset).",
-   "3D objects and image ROIs (label / attribute / confidence / uuid criteria only); GT-less results under a uuid filter are not judged (statement silent); decisions within 1e-6 of a bound skipped."),
+   "Per recorded call (relative to the call's arguments, object roles decided by provenance) and end to end (final ground truth of the frame result against the criteria the plan configured); 3D objects and image ROIs (label / attribute / confidence / uuid criteria only); GT-less results under a uuid filter are not judged (statement silent); decisions within 1e-6 of a bound skipped."),
 }
 NA = json.load(open(os.path.join(HERE, "MANIFEST.json")))["not_applicable"]
 checks = []
